@@ -165,6 +165,52 @@ def c09_graph(split, ta, tb, tm, tl):
     return True
 
 
+def c09_reuse(split, t1, t2, same_ctx):
+    """the same EvalContext used for two builds: references of the second build see the second config only"""
+    reset()
+    DIVERGED[0] = False
+    nt = 4
+    names = ['d', 'e', 'late', 'nope']
+    t1 = pick(t1, nt)
+    t2 = pick(t2, nt)
+    ctx = MonCtx()
+
+    def doc(t, base):
+        # r is a FORWARD reference (its target is written after it) or dangling; values differ between the two builds
+        return 'r: !xref %s\nd: [%d]\ne: {v: %d}\nlate: [%d, 0]\n' % (names[t], base, base + 1, base + 2)
+    outs = []
+    for i, (t, base) in enumerate(((t1, 10), (t2, 20))):
+        c = ctx if same_ctx else MonCtx()
+        try:
+            b = Builder()
+            b.add_source(doc(t, base), raw_yaml=True)
+            cfg = c.evaluate(b.build())
+            outs.append(('ok', cfg))
+        except ayerr.EvalError as e:
+            reraise_internal(e)
+            outs.append(('err', None))
+        except Exception as e:
+            reraise_internal(e)
+            note(error='unexpected ' + repr(e)[:200])
+            return False
+    note(docs=[doc(t1, 10), doc(t2, 20)], same_ctx=bool(same_ctx), outcomes=[o[0] for o in outs])
+    if DIVERGED[0]:
+        return False
+    for (t, base), (st, cfg) in zip(((t1, 10), (t2, 20)), outs):
+        if names[t] == 'nope':
+            if st != 'err':
+                return False
+            wit('dangling_reported')
+            continue
+        if st != 'ok':
+            return False
+        if cfg['r'] is not cfg[names[t]]:
+            note(stale=repr(cfg['r']), expected=repr(cfg[names[t]]))
+            return False
+        wit('alias_checked')
+    return True
+
+
 def _splits(tier):
     out = []
     # fixed assignments: -1 = data, k >= 0 = reference to TARGETS[k]; absent = symbolic
@@ -181,6 +227,8 @@ def _splits(tier):
 
 
 HARNESSES = {
+    'c09_reuse': Harness('c09_reuse', c09_reuse, [('t1', 'int', 0, 3), ('t2', 'int', 0, 3), ('same_ctx', 'bool')], lambda tier: [{}],
+                         doc='two builds on one (or two) evaluation contexts with forward / dangling references', witnesses=('alias_checked', 'dangling_reported')),
     'c09_graph': Harness('c09_graph', c09_graph,
                          [('ta', 'int', 0, len(TARGETS)), ('tb', 'int', 0, len(TARGETS)), ('tm', 'int', 0, len(TARGETS)), ('tl', 'int', 0, len(TARGETS))],
                          _splits, doc='reference graphs over 6 positions in 2 sources; target of each symbolic slot chosen by the solver',
